@@ -39,6 +39,7 @@ def run(ctx, R, tier):
     R.rule("C18-R3", "served once or refused: one worker.process(job) on every non-raising path of Pool.process; a new worker only under the bound; refusal reaches denyConnection, which always closes", floor=6)
     R.rule("C18-R4", "worker loop: slot cleared before notify_done; a None job ends the thread; close hands None to every worker and empties both sets", floor=5)
 
+    R.rule("C18-R5", "the worker sets are per pool: created fresh in Pool.__init__", floor=2)
     pool = p.cls("Pyro5.svr_threads.Pool")
     proc = ctx.fn("Pyro5.svr_threads.Pool.process")
     nd = ctx.fn("Pyro5.svr_threads.Pool.notify_done")
@@ -185,6 +186,12 @@ def run(ctx, R, tier):
     for o in R8.obs:
         if o.key == "C08-R5|client|handshake-reply-decoded-by-reply-serializer":
             R.add("C18-R3", "client|refusal-decodable", o.desc + " (the pool-full refusal is sent before the daemon adopts the client's serializer)", o.ok, o.loc, o.detail)
+        if o.key == "C08-R4|_handshake|failure-answer-serializer-known":
+            R.add("C18-R3", "_handshake|refusal-encodable", o.desc + " (the pool-full refusal is such a failure answer)", o.ok, o.loc, o.detail)
+    desc = es.escapes(dcf.qualname)
+    R.check(not desc, "C18-R3", "denyConnection|contains-all-errors", "no exception of the refusal handshake leaves denyConnection (it runs in the accept loop)", dcf.loc(),
+            "denyConnection lets %s escape (%s): raised while a refused client is answered, it ends the accept loop, and later connections are neither served nor refused" % (
+                sorted({k[0].rsplit(".", 1)[-1] for k in desc}), "; ".join(sorted({v[0] for v in desc.values()}))[:160]))
 
     # ---------------------------------------------------------------- R4
     from .c05 import worker_loop_rules
@@ -235,3 +242,8 @@ def run(ctx, R, tier):
         return pol is False and unparse(atom) == "self.closed"
     ok = ok and all(cfg.guarded(n, lambda e: edge_has_fact(e, closed_false)) for n in hn)
     R.check(ok, "C18-R4", "Pool.process|closed-starts-no-job", "a closed pool starts no further job", proc.loc(), "process() can hand out a job after close()")
+
+    # ---------------------------------------------------------------- R5
+    from .common import fresh_per_instance
+    fresh_per_instance(ctx, R, "C18-R5", "Pyro5.svr_threads.Pool", "idle", "two pools (two daemons) would hand each other's workers jobs and miscount the bound")
+    fresh_per_instance(ctx, R, "C18-R5", "Pyro5.svr_threads.Pool", "busy", "two pools (two daemons) would miscount the worker bound")
